@@ -50,3 +50,17 @@ Proof.
   unfold wf_bytesb, wf_bytes. rewrite forallb_forall, Forall_forall.
   split; intros H x Hx; specialize (H x Hx); apply N.ltb_lt; exact H.
 Qed.
+
+(* DNS-safe octet for C08: printable-or-high, never a dot, backslash, space, control character or DEL *)
+Definition dns_safeb (b : N) : bool :=
+  (33 <=? b) && (b <? 256) && negb (b =? 46) && negb (b =? 92) && negb (b =? 127).
+
+Fixpoint nodupb (l : list N) : bool :=
+  match l with
+  | [] => true
+  | x :: r => negb (existsb (N.eqb x) r) && nodupb r
+  end.
+
+(* an alphabet for w-bit digits: exactly 2^w distinct DNS-safe characters *)
+Definition good_alpha (w : nat) (alpha : list N) : bool :=
+  Nat.eqb (List.length alpha) (2 ^ w) && nodupb alpha && forallb dns_safeb alpha.
